@@ -119,6 +119,8 @@ type loopState struct {
 	decPre   Term
 	mapPhis  map[*ssa.Phi]*Loc
 	rangeIdx *ssa.Phi
+	entryPhi map[*ssa.Phi]Term // values of the header phis when the loop is entered (x@in)
+	memEntry map[string]Term  // memory when the loop is entered
 	countIdx *ssa.Phi // induction variable of a counted loop (0, 1, 2, ...)
 	countGuard *ssa.BinOp // the header's `i < n` when n is stable across the loop
 	visCur   Term // the visited-keys ghost of a map range, as seen by the clause being translated
